@@ -172,10 +172,10 @@ func (r *Recorder) Sample(v interface{}) {
 	r.mu.Unlock()
 }
 
-func (r *Recorder) Assume(s ...string)                { r.assumptions = append(r.assumptions, s...) }
-func (r *Recorder) Extra(k string, v interface{})     { r.mu.Lock(); r.extra[k] = v; r.mu.Unlock() }
-func (r *Recorder) SetExhaustive(b bool)              { r.exhaustive = b }
-func (r *Recorder) Evals() int64                      { r.mu.Lock(); defer r.mu.Unlock(); return r.evals }
+func (r *Recorder) Assume(s ...string)            { r.assumptions = append(r.assumptions, s...) }
+func (r *Recorder) Extra(k string, v interface{}) { r.mu.Lock(); r.extra[k] = v; r.mu.Unlock() }
+func (r *Recorder) SetExhaustive(b bool)          { r.exhaustive = b }
+func (r *Recorder) Evals() int64                  { r.mu.Lock(); defer r.mu.Unlock(); return r.evals }
 func (r *Recorder) ExtraAdd(k string, n int64) {
 	r.mu.Lock()
 	if v, ok := r.extra[k].(int64); ok {
